@@ -634,19 +634,19 @@ def _value_delta(C, t, obj, rv, xsd, discs, want):
             return judged
     if t == 'date' and rv['tz'] is not None:
         return judged               # fromdelta drops the time part by design: no identity for dates with timezone
+    if rv['tz'] is None:
+        exp_back, mid = want, cv
+    elif not amb:
+        mid = cal.from_local_seconds(cal.instant(cv, 0), None)       # the UTC-normalised value
+        exp_back = fmt(t, mid, xsd)
+    else:
+        exp_back = mid = None
     try:
         back = C[t].fromdelta(td)
     except Exception as e:
         if not (huge and _is_overflow(e)):
-            discs.append(Disc(_esc(e, fam0, f'value/fromdelta/{t}'), want, repr(e), str(td)))
+            discs.append(Disc(_esc(e, _fam(fam0, _res_fam(xsd, mid) if mid else None), f'value/fromdelta/{t}'), want, repr(e), str(td)))
         return judged
-    if rv['tz'] is None:
-        exp_back, mid = want, cv
-    elif not amb:
-        mid = cal.from_local_seconds(cal.instant(cv, 0), None)
-        exp_back = fmt(t, mid, xsd)
-    else:
-        exp_back = mid = None
     same = str(back) == exp_back
     if exp_back is not None and not same and rv['tz'] is not None:
         # with a timezone only the instant must survive (the form of the result is elementpath's choice)
